@@ -226,7 +226,7 @@ static uint64_t ctr_seqs;
  * 2 = between setKey and setIV.  With the default size 16 the reference is the C library's CTR object (generic back
  * end); with a shorter one it is in xor E(c_i) computed with the C library's block function, c_i incremented inside
  * the last csize bytes only ("only the last size bytes are relevant when incrementing"). */
-static void ctr_sequence(int cls, int iv, const int *seq, int n, int rekey_after, int csize, int cswhen)
+static void ctr_sequence(int cls, int iv, const int *seq, int n, int rekey_after, int csize, int cswhen, int reiv_after = -1)
 {
     CTRCommon *a = ctr_of(cls); CtrObj co; static uint8_t in[256], oa[256], oc[256]; size_t pos = 0; int i; bool ok = true;
     Skinny128Key_t mk; Skinny128TweakedKey_t mtk; const Skinny128Key_t *ks = CTR_TWEAKED[cls] ? &mtk.ks : &mk;
@@ -262,6 +262,13 @@ static void ctr_sequence(int cls, int iv, const int *seq, int n, int rekey_after
             }
         }
         pos += (size_t)seq[i];
+        if (i == reiv_after) {
+            /* a new IV in the middle of a stream (one key, a new IV per message): buffered keystream of the old counter is dropped */
+            int iv2 = (iv + 2) % nivs;
+            ok &= a->setIV(IVS[iv2], 16);
+            ctr_set_counter(CK_S128, &co, IVS[iv2], 16);
+            memcpy(mctr, IVS[iv2], 16); mpos = 16;
+        }
         if (i == rekey_after) {
             /* key change in the middle of the stream, no new IV: both sides must continue the same way */
             ok &= a->setKey(KEYS[!(cls & 1)], (size_t)CTR_KLEN[cls]);
@@ -274,10 +281,10 @@ static void ctr_sequence(int cls, int iv, const int *seq, int n, int rekey_after
     ++ctr_seqs; ++g_cnt.evaluations;
     distinct_add_u64(fnv1a(oa, pos, fnv1a(seq, sizeof(int) * (size_t)n, (uint64_t)(cls * 100 + iv) + (uint64_t)(csize * 7 + cswhen) * 1000)));
     if (!ok || memcmp(oa, oc, pos) != 0) {
-        char sig[160], cd[200]; size_t o = (size_t)snprintf(cd, sizeof(cd), "c19c %d %d %d %d %d", cls, iv, rekey_after, csize, cswhen), d = 0;
+        char sig[160], cd[200]; size_t o = (size_t)snprintf(cd, sizeof(cd), "c19c %d %d %d %d %d", cls, iv, rekey_after + 100 * (reiv_after + 1), csize, cswhen), d = 0;
         for (i = 0; i < n; ++i) o += (size_t)snprintf(cd + o, sizeof(cd) - o, " %d", seq[i]);
         while (d < pos && oa[d] == oc[d]) ++d;
-        snprintf(sig, sizeof(sig), "C19/CTR<%s>/%s%s", VNAME[cls], !ok ? "return-values" : (rekey_after >= 0 ? "stream-after-mid-stream-setKey" : "stream"), csize != 16 ? "/short-counter" : (cswhen != 1 ? "/counter-size-set-early" : ""));
+        snprintf(sig, sizeof(sig), "C19/CTR<%s>/%s%s", VNAME[cls], !ok ? "return-values" : (reiv_after >= 0 ? "stream-after-mid-stream-setIV" : (rekey_after >= 0 ? "stream-after-mid-stream-setKey" : "stream")), csize != 16 ? "/short-counter" : (cswhen != 1 ? "/counter-size-set-early" : ""));
         violation(sig, cd, "CTR<%s> with IV %s, setCounterSize(%d) %s: %s (first differing byte %zu of %zu)", VNAME[cls], hexs(IVS[iv], 16), csize,
                   cswhen == 0 ? "before setKey" : (cswhen == 1 ? "after setIV" : "between setKey and setIV"),
                   ok ? (csize == 16 ? "output differs from skinny128_ctr_encrypt on the generic back end" : "output differs from in xor E(c_i) with the C library's block function, c_i incremented in the last bytes only")
@@ -293,6 +300,7 @@ static void ctr_dfs(int cls, int iv, int *seq, int n, int consumed, int maxd)
         if (CSIZES[cs] != 16 && n == 3 && !tier_thorough() && w == 2) continue;
         ctr_sequence(cls, iv, seq, n, -1, CSIZES[cs], w);
         if (n >= 2) ctr_sequence(cls, iv, seq, n, 0, CSIZES[cs], w);
+        if (n >= 2 && w == 1) { ctr_sequence(cls, iv, seq, n, -1, CSIZES[cs], w, 0); if (n >= 3) ctr_sequence(cls, iv, seq, n, -1, CSIZES[cs], w, 1); }
     }
     if (n >= maxd || consumed > 50) return;
     for (i = 0; i < 10; ++i) { seq[n] = CLENS[i]; ctr_dfs(cls, iv, seq, n + 1, consumed + CLENS[i], maxd); }
@@ -310,7 +318,7 @@ static void run_ctr(void)
         int n = 0, rk, cs, w; const char *p = g_opts.replay + 5; cls = atoi(p); p = strchr(p, ' ') + 1; iv = atoi(p); p = strchr(p, ' ') + 1; rk = atoi(p);
         p = strchr(p, ' ') + 1; cs = atoi(p); p = strchr(p, ' ') + 1; w = atoi(p);
         while ((p = strchr(p, ' ')) != NULL) { ++p; seq[n++] = atoi(p); if (n >= 8) break; }
-        ctr_sequence(cls, iv, seq, n, rk, cs, w);
+        { int ri = -1; if (rk >= 99) { ri = (rk + 1) / 100 - 1; rk = rk - 100 * (ri + 1); } ctr_sequence(cls, iv, seq, n, rk, cs, w, ri); }
         return;
     }
     for (cls = 0; cls < 5; ++cls) for (iv = 0; iv < nivs; ++iv, ++job) {
